@@ -154,12 +154,22 @@ def make_app(prog, pre_hook=None, **settings):
     return app
 
 
-def serve(env, app, incoming, no_keep_alive=False, eof=False):
-    """Feed `incoming` to a real HTTP1ServerConnection serving `app`; returns the FakeStream."""
-    st = FakeStream(env.loop, incoming, eof=eof, seg=2)
+def serve(env, app, incoming, no_keep_alive=False, eof=False, slow=False):
+    """Feed `incoming` to a real HTTP1ServerConnection serving `app`; returns the FakeStream.
+    slow=True: slow consumer - every stream.write() stays PENDING until the peer drains
+    (FakeStream.flush_writes); the loop is run to quiescence between drains."""
+    st = FakeStream(env.loop, incoming, eof=eof, seg=2, slow_writes=slow)
     conn = HTTP1ServerConnection(st, HTTP1ConnectionParameters(no_keep_alive=no_keep_alive))
     conn.start_serving(app)
     env.run_ready()
+    if slow:
+        rounds = 0
+        while st.writing():
+            st.flush_writes()
+            env.run_ready()
+            rounds += 1
+            if rounds > 40:
+                raise AssertionError("writes never quiesce")
     return st
 
 
